@@ -177,7 +177,8 @@ def constant_text_worker(args):
             return
         text = s.concrete(m)
         chk.query('%s:only-cffi-errors' % label, 'sat', 0.0, detail=repr(text))
-        chk.report_failure('%s: Constant.value=%r raises %s' % (label, text, outcome), {}, None, None)
+        ok, script = py_replay(chk, 'ctext-%s' % outcome, 'enum e { A = %s };' % text)
+        chk.report_failure('%s: Constant.value=%r raises %s' % (label, text, outcome), {}, script, ok)
 
     res = ex.explore(h, max_paths=300000)
     hutil.finish_explore(chk, ex, res, label)
